@@ -61,13 +61,11 @@ Names == {"o0", "t0", "o1", "t1", "o2", "t2"}
 OName(s) == IF s = 0 THEN "o0" ELSE IF s = 1 THEN "o1" ELSE "o2"
 TName(s) == IF s = 0 THEN "t0" ELSE IF s = 1 THEN "t1" ELSE "t2"
 
-\* Classes of ill-posed input and the phase that must reject them.
-\*   "build": Polygon / Device / Layer construction;  "ctor": TDGLSolver.__init__;
-\*   "presolve": TDGLSolver.solve before the DataHandler is entered.
-PhaseOf(c) == CASE c \in {"polygon", "device"} -> "build"
-                [] c \in {"options", "ashape", "epsilon", "terminal", "currents", "currents_t"} -> "ctor"
-                [] c \in {"seed"} -> "presolve"
-                [] OTHER -> "never"
+\* Ill-posed input (cfg.bad # "none") must be rejected by one of the three phases that
+\* precede the creation of any file:
+\*   "build": Polygon / Device / Layer / SolverOptions construction;
+\*   "ctor": TDGLSolver.__init__;  "presolve": TDGLSolver.solve before the DataHandler is entered.
+\* Which phase rejects a given class is an implementation choice and is left open.
 
 K == cfg.k
 ZeroBuf == [j \in 0..K-1 |-> 0]
@@ -93,9 +91,10 @@ Init == \E c \in CfgSpace : InitWith(c)
 
 Phase(p, nextpc) ==
   /\ pc = p
-  /\ IF PhaseOf(cfg.bad) = p
-       THEN pc' = "rejected" /\ result' = "rejected"
-       ELSE pc' = nextpc /\ UNCHANGED result
+  /\ \/ /\ cfg.bad # "none"                           \* reject
+        /\ pc' = "rejected" /\ result' = "rejected"
+     \/ /\ (cfg.bad = "none" \/ p # "presolve")         \* pass on (the last phase must not pass ill-posed input)
+        /\ pc' = nextpc /\ UNCHANGED result
   /\ UNCHANGED <<cfg, fs, serial, stage, i, t, applied, tapplied, buf, bstep, frames, wr,
                  cancelled, err, faults, simdts, tdts, flog>>
 
@@ -398,7 +397,8 @@ LoadedTimesModKnown == KnownGhostRecord \/ LoadedTimesAreFrameTimes
 
 (* ---- C19 ---- *)
 RejectedBeforeAnyFile == pc = "rejected" => fs = FS0(cfg) /\ serial = -1 /\ NFrames = 0
-IllPosedNeverRuns == cfg.bad # "none" => pc \in {"build", "ctor", "presolve", "rejected"}
+IllPosedNeverRuns == cfg.bad # "none" => \/ pc \in {"build", "ctor", "presolve", "rejected"}
+                                         \/ (pc = "done" /\ result = "rejected")
 
 TypeOK == /\ pc \in {"build", "ctor", "presolve", "rejected", "open", "run", "label", "save", "clear", "update",
                      "stop", "final", "stageend", "assemble", "close", "returned", "done"}
